@@ -14,6 +14,7 @@ for id in $(./bin/rlcheck list); do
   if [ $rc -ne 0 ]; then echo "$out" | grep -v KNOWN-FINDING | head -5; fail=1; fi
 done
 if [ $fail -ne 0 ]; then echo "NOT COMMITTED: a check fails on the unchanged tree"; exit 1; fi
+python3 tools/gen_design_tables.py || exit 1
 python3-vt - <<'PY' || exit 1
 import json, jsonschema, glob
 m=json.load(open('/verif/MANIFEST.json')); jsonschema.validate(m, json.load(open('/root/.vp/MANIFEST.schema.json')))
